@@ -298,4 +298,274 @@ theorem sendBody_sent (items : List Item) (sched : List CapAns) :
         · simp only [hfil, sendChunk_sent]
         · simp only [List.map_append, List.filter_append, hfil, sendChunk_sent, ih]
 
+/-! ### termination measure -/
+
+/-- under a granting oracle every poll of the inner loop moves at least one byte -/
+theorem sendChunk_polls_le (chunk : Bytes) (sched : List CapAns) (hne : chunk ≠ [])
+    (hg : GoodSched sched) :
+    (sendChunk chunk sched).polls.length ≤ (wireBytes (sendChunk chunk sched).frames).length := by
+  induction sched generalizing chunk with
+  | nil => simp [sendChunk]
+  | cons a rest ih =>
+    obtain ⟨c, hc, hc1⟩ := hg a (List.mem_cons_self ..)
+    subst hc
+    have hl1 : 1 ≤ chunk.length := by
+      cases chunk with
+      | nil => exact absurd rfl hne
+      | cons _ _ => simp
+    simp only [sendChunk]
+    split
+    · simp only [wireBytes, List.length_cons, List.length_nil, List.append_nil, List.length_take]
+      omega
+    · rename_i hemp
+      have hne' : chunk.drop (min chunk.length c) ≠ [] := by
+        intro h0; apply hemp; simp [h0]
+      have := ih (chunk.drop (min chunk.length c)) hne' hg.tail
+      simp only [wireBytes, List.length_cons, List.length_append, List.length_take]
+      omega
+
+/-- the number of capacity requests never exceeds the number of body bytes -/
+theorem sendBody_polls_le (items : List Item) (sched : List CapAns) (hg : GoodSched sched) :
+    (sendBody items sched).polls.length ≤ (bodyBytes items).length := by
+  induction items generalizing sched with
+  | nil => simp [sendBody]
+  | cons it items ih =>
+    cases it with
+    | err => simp [sendBody]
+    | chunk bs =>
+      simp only [sendBody, bodyBytes, List.length_append]
+      split
+      · have := ih sched hg; omega
+      · rename_i hemp
+        have hne : bs ≠ [] := by intro h; apply hemp; simp [h]
+        have h1 := sendChunk_polls_le bs sched hne hg
+        obtain ⟨⟨tl, htl, _⟩, _, hsuf, _⟩ := sendChunk_safe bs sched
+        have h2 : (wireBytes (sendChunk bs sched).frames).length ≤ bs.length := by
+          have := congrArg List.length htl
+          simp only [List.length_append] at this; omega
+        split
+        · simp only; omega
+        · have := ih _ (hg.suffix hsuf)
+          simp only [List.length_append]; omega
+
+/-! ### the event machine -/
+
+theorem foldl_step_fin (s : LoopSt) (sched : List CapAns) (h : s.fin.isSome) :
+    sched.foldl step s = s := by
+  induction sched with
+  | nil => rfl
+  | cons a rest ih =>
+    have : step s a = s := by
+      unfold step
+      cases hf : s.fin with
+      | none => simp [hf] at h
+      | some e => rfl
+    simp only [List.foldl_cons, this, ih]
+
+theorem sendChunk_cap_last (chunk : Bytes) (c : Nat) (rest : List CapAns)
+    (h : (chunk.drop (min chunk.length c)).isEmpty = true) :
+    sendChunk chunk (.cap c :: rest) =
+      ⟨[⟨chunk.take (min chunk.length c), false⟩],
+       [⟨min chunk.length chunkSize, c, min chunk.length c⟩], none, rest⟩ := by
+  simp only [sendChunk, h, ↓reduceIte]
+
+theorem sendChunk_cap_more (chunk : Bytes) (c : Nat) (rest : List CapAns)
+    (h : ¬ (chunk.drop (min chunk.length c)).isEmpty = true) :
+    sendChunk chunk (.cap c :: rest) =
+      ⟨⟨chunk.take (min chunk.length c), false⟩ :: (sendChunk (chunk.drop (min chunk.length c)) rest).frames,
+       ⟨min chunk.length chunkSize, c, min chunk.length c⟩ :: (sendChunk (chunk.drop (min chunk.length c)) rest).polls,
+       (sendChunk (chunk.drop (min chunk.length c)) rest).stop,
+       (sendChunk (chunk.drop (min chunk.length c)) rest).rest⟩ := by
+  simp only [sendChunk, h, Bool.false_eq_true, ↓reduceIte]
+
+theorem step_cap_last (F : List Frame) (cur : Bytes) (items : List Item) (c : Nat)
+    (h : (cur.drop (min cur.length c)).isEmpty = true) :
+    step ⟨F, cur, items, none⟩ (.cap c) = pull (F ++ [⟨cur.take (min cur.length c), false⟩]) items := by
+  simp only [step, h, ↓reduceIte]
+
+theorem step_cap_more (F : List Frame) (cur : Bytes) (items : List Item) (c : Nat)
+    (h : ¬ (cur.drop (min cur.length c)).isEmpty = true) :
+    step ⟨F, cur, items, none⟩ (.cap c) =
+      ⟨F ++ [⟨cur.take (min cur.length c), false⟩], cur.drop (min cur.length c), items, none⟩ := by
+  simp only [step, h, Bool.false_eq_true, ↓reduceIte]
+
+/-- one chunk: the machine, fed the schedule, does what `sendChunk` does -/
+theorem foldl_step_chunk (chunk : Bytes) (sched : List CapAns) (F : List Frame) (items : List Item)
+    (hne : chunk ≠ []) :
+    match (sendChunk chunk sched).stop with
+    | none => sched.foldl step ⟨F, chunk, items, none⟩ =
+        (sendChunk chunk sched).rest.foldl step (pull (F ++ (sendChunk chunk sched).frames) items)
+    | some e => (sched.foldl step ⟨F, chunk, items, none⟩).frames = F ++ (sendChunk chunk sched).frames ∧
+        (sched.foldl step ⟨F, chunk, items, none⟩).end_ = e := by
+  induction sched generalizing chunk F with
+  | nil => simp [sendChunk, LoopSt.end_]
+  | cons a rest ih =>
+    cases a with
+    | closed =>
+      simp only [sendChunk, List.foldl_cons, step]
+      rw [foldl_step_fin _ _ (by simp)]
+      simp [LoopSt.end_]
+    | err =>
+      simp only [sendChunk, List.foldl_cons, step]
+      rw [foldl_step_fin _ _ (by simp)]
+      simp [LoopSt.end_]
+    | cap c =>
+      by_cases hemp : (chunk.drop (min chunk.length c)).isEmpty = true
+      · rw [sendChunk_cap_last _ _ _ hemp, List.foldl_cons, step_cap_last _ _ _ _ hemp]
+      · have hne' : chunk.drop (min chunk.length c) ≠ [] := by
+          intro h0; apply hemp; simp [h0]
+        have := ih (chunk.drop (min chunk.length c)) (F ++ [⟨chunk.take (min chunk.length c), false⟩]) hne'
+        rw [sendChunk_cap_more _ _ _ hemp, List.foldl_cons, step_cap_more _ _ _ _ hemp]
+        simp only [List.append_assoc, List.singleton_append] at this
+        exact this
+
+/-- **big-step = small-step**: the recursive loop model and the event machine agree on the
+frames sent and on how the task ends, for every body and every schedule. -/
+theorem runSteps_eq_sendBody_aux (items : List Item) (sched : List CapAns) (F : List Frame) :
+    (sched.foldl step (pull F items)).frames = F ++ (sendBody items sched).frames ∧
+    (sched.foldl step (pull F items)).end_ = (sendBody items sched).end_ := by
+  induction items generalizing sched F with
+  | nil =>
+    simp only [pull, sendBody]
+    rw [foldl_step_fin _ _ (by simp)]
+    simp [LoopSt.end_]
+  | cons it items ih =>
+    cases it with
+    | err =>
+      simp only [pull, sendBody]
+      rw [foldl_step_fin _ _ (by simp)]
+      simp [LoopSt.end_]
+    | chunk bs =>
+      simp only [pull, sendBody]
+      split
+      · exact ih sched F
+      · rename_i hemp
+        have hne : bs ≠ [] := by intro h; apply hemp; simp [h]
+        have hc := foldl_step_chunk bs sched F items hne
+        split
+        · rename_i e hstop
+          simp only [hstop] at hc
+          exact hc
+        · rename_i hstop
+          simp only [hstop] at hc
+          rw [hc]
+          have := ih (sendChunk bs sched).rest (F ++ (sendChunk bs sched).frames)
+          simp only [List.append_assoc] at this
+          exact this
+
+theorem runSteps_eq_sendBody (items : List Item) (sched : List CapAns) :
+    (runSteps items sched).frames = (sendBody items sched).frames ∧
+    (runSteps items sched).end_ = (sendBody items sched).end_ := by
+  have := runSteps_eq_sendBody_aux items sched []
+  simpa [runSteps] using this
+
+/-- the invariant of the suspended task -/
+structure LoopInv (total : Bytes) (s : LoopSt) : Prop where
+  /-- sent ++ unsent remainder of the current chunk ++ what the body will still produce -/
+  bytes : wireBytes s.frames ++ s.cur ++ bodyBytes s.items = total
+  /-- a waiting task always has something to send: it never reserves zero capacity -/
+  waiting : s.fin = none → s.cur ≠ []
+  /-- END_STREAM has been sent iff the task finished `done`; then nothing is left unsent -/
+  eos : (∃ f ∈ s.frames, f.eos = true) ↔ s.fin = some .done
+  done : s.fin = some .done → s.cur = [] ∧ s.items = []
+
+theorem pull_inv (total : Bytes) (F : List Frame) (items : List Item)
+    (hb : wireBytes F ++ bodyBytes items = total) (hF : ∀ f ∈ F, f.eos = false) :
+    LoopInv total (pull F items) := by
+  induction items with
+  | nil =>
+    refine ⟨?_, by simp [pull], ?_, by simp [pull]⟩
+    · simpa [pull, wireBytes_append, wireBytes, bodyBytes] using hb
+    · simp [pull]
+  | cons it items ih =>
+    cases it with
+    | err =>
+      refine ⟨?_, by simp [pull], ?_, by simp [pull]⟩
+      · simpa [pull, bodyBytes] using hb
+      · simp only [pull]
+        constructor
+        · intro ⟨f, hf, he⟩; rw [hF f hf] at he; cases he
+        · intro h; cases h
+    | chunk bs =>
+      simp only [pull]
+      split
+      · rename_i hemp
+        have : bs = [] := by simpa using hemp
+        subst this
+        exact ih (by simpa [bodyBytes] using hb)
+      · rename_i hemp
+        refine ⟨?_, ?_, ?_, by simp⟩
+        · simpa [bodyBytes, List.append_assoc] using hb
+        · intro _ h
+          have h' : bs = [] := h
+          apply hemp; simp [h']
+        · constructor
+          · intro ⟨f, hf, he⟩; rw [hF f hf] at he; cases he
+          · intro h; cases h
+
+/-- the invariant is preserved by every answer -/
+theorem step_inv (total : Bytes) (s : LoopSt) (a : CapAns) (h : LoopInv total s) :
+    LoopInv total (step s a) := by
+  unfold step
+  cases hf : s.fin with
+  | some e => simpa [hf] using h
+  | none =>
+    have hnoeos : ∀ f ∈ s.frames, f.eos = false := by
+      intro f hf'
+      cases he : f.eos with
+      | false => rfl
+      | true =>
+        have := h.eos.mp ⟨f, hf', he⟩
+        rw [hf] at this; cases this
+    cases a with
+    | closed =>
+      refine ⟨h.bytes, by simp, ?_, by simp⟩
+      simp only
+      constructor
+      · intro ⟨f, hf', he⟩; rw [hnoeos f hf'] at he; cases he
+      · intro h'; cases h'
+    | err =>
+      refine ⟨h.bytes, by simp, ?_, by simp⟩
+      simp only
+      constructor
+      · intro ⟨f, hf', he⟩; rw [hnoeos f hf'] at he; cases he
+      · intro h'; cases h'
+    | cap c =>
+      simp only
+      have hF' : ∀ f ∈ s.frames ++ [⟨s.cur.take (min s.cur.length c), false⟩], f.eos = false := by
+        intro f hf'
+        simp only [List.mem_append, List.mem_singleton] at hf'
+        cases hf' with
+        | inl h1 => exact hnoeos f h1
+        | inr h1 => subst h1; rfl
+      split
+      · rename_i hemp
+        have hd : s.cur.drop (min s.cur.length c) = [] := by simpa using hemp
+        apply pull_inv total _ _ _ hF'
+        have hb := h.bytes
+        rw [← List.take_append_drop (min s.cur.length c) s.cur, hd] at hb
+        simpa [wireBytes_append, wireBytes, List.append_assoc] using hb
+      · rename_i hemp
+        refine ⟨?_, ?_, ?_, ?_⟩
+        · have hb := h.bytes
+          conv at hb => lhs; rw [← List.take_append_drop (min s.cur.length c) s.cur]
+          simpa [wireBytes_append, wireBytes, List.append_assoc] using hb
+        · intro _ h0
+          have h0' : s.cur.drop (min s.cur.length c) = [] := h0
+          apply hemp; simp [h0']
+        · simp only [hf]
+          constructor
+          · intro ⟨f, hf', he⟩; rw [hF' f hf'] at he; cases he
+          · intro h'; cases h'
+        · simp [hf]
+
+/-- the invariant holds after every sequence of answers -/
+theorem runSteps_inv (items : List Item) (sched : List CapAns) :
+    LoopInv (bodyBytes items) (runSteps items sched) := by
+  have : ∀ (s : LoopSt), LoopInv (bodyBytes items) s → LoopInv (bodyBytes items) (sched.foldl step s) := by
+    induction sched with
+    | nil => intro s h; exact h
+    | cons a rest ih => intro s h; exact ih _ (step_inv _ s a h)
+  exact this _ (pull_inv _ [] items (by simp [wireBytes]) (by simp))
+
 end ActixModel.H2
